@@ -99,8 +99,8 @@ class GridObject(ObjectBase, ABC):
                     and isinstance(getattr(child, "values", None), np.ndarray)
                     and child.values.shape == mask.shape
                 ):
-                    values = np.ones_like(child.values) * np.nan
-                    values[mask] = child.values[mask]
+                    values = child.values.copy()
+                    values[~mask] = child.nan_value
                 else:
                     values = child.values
 
